@@ -27,6 +27,10 @@ pub trait IntoLeftAfterTake {
 	/// Check that we have consumed everything we should have (`block_size`)
 	/// from the `take`n reader, then turn it back into the original reader
 	fn into_left_after_take(self) -> Result<Self::Original, DeError>;
+	/// Verification hook H4 (only with `--cfg ten0_serde_avro_fast_verif`): the number of
+	/// bytes of the block that have not been consumed from the `take`n reader yet
+	#[cfg(ten0_serde_avro_fast_verif)]
+	fn verif_limit_left(&self) -> u64;
 }
 
 impl<'de> Take for SliceRead<'de> {
@@ -99,6 +103,10 @@ impl<'de> IntoLeftAfterTake for SliceReadTake<'de> {
 		}
 		Ok(self.left_after_take)
 	}
+	#[cfg(ten0_serde_avro_fast_verif)]
+	fn verif_limit_left(&self) -> u64 {
+		self.inner_slice_read.slice.len() as u64
+	}
 }
 
 impl<R: std::io::BufRead> Take for ReaderRead<R> {
@@ -139,5 +147,9 @@ impl<R: std::io::BufRead> IntoLeftAfterTake for ReaderRead<std::io::Take<R>> {
 			scratch: self.scratch,
 			max_alloc_size: self.max_alloc_size,
 		})
+	}
+	#[cfg(ten0_serde_avro_fast_verif)]
+	fn verif_limit_left(&self) -> u64 {
+		self.reader.limit()
 	}
 }
